@@ -79,6 +79,12 @@ pub fn violation_of(s: &St, probes: &[(DnaString, Vec<u8>)], serde_check: bool) 
     let rcm = rc(m);
     need!(d.rc() == DnaString::from_bytes(&rcm) && d.rc().to_bytes() == rcm, "rc");
     need!(ndiffs(d, &canon) == 0 && d.hamming_distance(&canon) == 0, "ndiffs with itself");
+    // ndiffs against strings that differ everywhere / at every third base / in the low or high bit only
+    for (name, f) in [("all", (|_i: usize, b: u8| (b + 1) % 4) as fn(usize, u8) -> u8), ("every-third", |i, b| if i % 3 == 0 { (b + 2) % 4 } else { b }), ("low-bit", |_i, b| b ^ 1), ("high-bit", |i, b| if i % 2 == 1 { b ^ 2 } else { b })] {
+        let m2: Vec<u8> = m.iter().enumerate().map(|(i, b)| f(i, *b)).collect();
+        let want = m.iter().zip(m2.iter()).filter(|(a, b)| a != b).count();
+        need!(ndiffs(d, &DnaString::from_bytes(&m2)) == want && ndiffs(&DnaString::from_bytes(&m2), d) == want, "ndiffs against the '{}' variant: want {}", name, want);
+    }
     if !m.is_empty() {
         for p in [0, m.len() / 2, m.len() - 1] {
             let mut m2 = m.clone();
